@@ -23,7 +23,8 @@ META = {
                 "character- and token-level mutation of source text (text is concrete for the regex parser)", "programs above 5 statements",
                 "resource exhaustion by astronomically large counts (e.g. '.align 10**11' asks for a 100 GB fill): excluded by the count bound",
                 "termination is only ever refuted (watchdog), never proved"],
-    "structure": "quick: depth <= 1 exhaustive per head representative + seeded depth 2 (about 1300 structures); thorough: about 9000",
+    "structure": "about 250 token-level oddities (wrong operand kinds, malformed labels/assignments, unbalanced brackets, malformed numbers and "
+                 "literals, dangling operators, odd white space and characters) each alone, in context and at end of file; quick: depth <= 1 exhaustive per head representative + seeded depth 2 (about 1300 structures); thorough: about 9000",
     "stubs": [],
 }
 
@@ -48,6 +49,32 @@ CYCLES = [
     ". = . + q\nq = e - .\ne:\n", "s = t * 2\nt = s / 2 + {V1}\n.byte s\n", ".repeat r { nop }\nr = e - b\nb: .word 0\ne:\n",
     "a: .blkb b - a\nb: .blkb a - b + {V1}\n", "mov #a, r0\na = a\n", "c = a\na = a\n", "c = a\na = b\nb = a\n", "mov #c, r0\nc = a\na = a\n",
     "c = a + {V1}\nd = c\na = b\nb = a\n.word d\n", "a = a\nc = a\n", ".align a\na:\n", "a = . + a\n", "br a\na = a + 2\n",
+]
+
+
+TOKENS = [
+    # operands of the wrong kind / count for directives
+    '.blkb "ab"', ".ascii 5", ".asciz", '.align "x"', '.repeat "a" { nop }', '.link "s"', "make_bin 5", ".extern 5", '.extern "s"', ".extern", ".include 5",
+    ".include", "insert_file", ".rad50 5", ".rad50", ".byte \"ab\"", ".word \"abc\"", ".dword 'a, \"bc", ".end 5", ".once 5", ".even 1, 2", ".blkb", ".blkb 1, 2",
+    ".link", ".link 1, 2", ". = ", ". == 5", ". = \"a\"", ".title", ".error", ".list 1, 2, 3", "make_wav 1, 2", 'make_wav "a", "b", "c"', ".page 5",
+    # labels and assignments
+    "1$ = 5", "r0 = 5", "R7 == 1", "r0: nop", "sp:: nop", "mov: nop", ".word: nop", "a ==", "a =", "= 5", "::", "a::: nop", "5: nop", "99999999999: nop",
+    "a = b = 5", "a: b: c: nop", "a: = 5", "x.y = 1", "$ = 1", "_ = 1", "a$b: .word a$b", ".: nop", "1$: 1$: nop", "a = 1\na = 2", "a: nop\na = 2", "a = 1\na: nop",
+    # brackets
+    "(", ")", "<", ">", "^/", "mov (r0", "mov r0)", ".word <1", ".word 1>", ".word ^/1", "{", "}", "nop }", ".repeat 2 {", ".word ((((((((1))))))))",
+    ".word <<<<1>>>>", ".word ^/^|^:1:|/", ".word ()", ".word <>", ".word ^//", "mov (r0)(r1), r2", "mov ((r0)), r1", "mov (r0)+(r1), r2", "mov @@r0, r1",
+    "mov ##1, r1", "mov #@1, r1", "mov @#@#1, r0", "mov -(r0)+, r1", "mov -(r0)-, r1", "mov (r0)++, r1", "mov +(r0), r1", "mov %8, r0", "mov %-1, r0", "mov %r0, r1",
+    # numbers and literals
+    ".word 0x", ".word 0b2", ".word ^X", ".word ^Xg", ".word 1e5", ".word 1.5", ".word 1..", ".word ..", ".word .5", ".word 0o8", ".word ^D", ".word ^R", ".word ^Rabcd",
+    ".word ^R#", ".word ^B102", ".word 0b", ".word 08", ".word 8.", ".word 1$", ".word 1$$", ".word 0x1G", ".word 0X", ".word ^d5", ".word ^C", ".word ^C^C1", ".word ^",
+    ".word '", ".word \"", ".word 'ab", ".word \"a", ".word ''", ".word '\\", ".word \"\\x", ".word '\\x4", ".word '\t", ".word 'a'", ".word \"ab\"", ".word '\u65e5", ".word \"\u65e5\u672c",
+    # operators
+    ".word 1 +", ".word +", ".word 1 + + 2", ".word * 2", ".word 1 2", ".word (1)(2)", ".word 1(2)(3)", ".word %", ".word #", ".word @", ".word -", ".word ~", ".word 1 << ",
+    ".word 1 <<< 2", ".word 1 >>> 2", ".word 1 <> 2", ".word 1 || 2", ".word 1 && 2", ".word 1 ** 2", ".word 1 // 2", ".word !1", ".word 1 ! ", ".word 1 _", ".word _1", ".word 1 $ 2",
+    ".word 1,", ".word ,1", ".word 1,,2", ".word ,", "mov ,", "mov r0,", "mov , r0", "mov r0,, r1", "mov r0 r1", "mov r0, r1, ", "mov r0, r1 r2", "nop nop", "nop nop nop", "mov r0, r1 nop",
+    # white space, comments, odd characters
+    ";", "nop;x", "\t", "nop\r", "nop\r\nnop\r", "nop\x0c", "nop\x00", "\ufeffnop", "nop\u00a0nop", "nop\u2028nop", "mov\tr0\t,\tr1", "mov r0,\nr1", "mov\nr0, r1", ".word 1 +\n2",
+    ".word 1\n+ 2", ".byte 1 ; c\n, 2", "a:\n\n\nb:\n.word a, b", "\u0416: nop", ".word \u0416", "mov r0, r1 ; \u65e5\u672c", "nop ; {", "nop ; \"", ".ascii \";\"", ".ascii /a;b/ ; c",
 ]
 
 
@@ -208,6 +235,11 @@ def obligations(tier, seed):
     for stmt in (".repeat {V1}, {V2} { nop }", ".repeat { nop }", ".repeat {V1}", ".repeat {V1} { .repeat {V2} { nop } }", ".repeat 2 { .repeat 2 { .repeat 2 { .byte {V1} } } }",
                  ".repeat {V1} { .end }", ".repeat 2 { .include \"nofile\" }", ".repeat 2 { .link {V1} }", ".repeat 2 { . = . + {V1} }", "{ nop }", ".repeat 2 { nop"):
         add("block", CONTEXT_NOSELF + stmt + TAIL)
+    # token-level oddities (concrete structure; one dummy symbolic so that the engine still explores): alone, in context, at end of file
+    for t in TOKENS:
+        add("tok", t + "\n")
+        add("tok-ctx", CONTEXT_NOSELF + t + TAIL)
+        add("tok-eof", "nop\n" + t)
     add("huge", ".word 1 << 20000.\n")
     add("huge", "X9 = 1 _ \"ab\"\n.byte X9\n")
     for i, c in enumerate(CYCLES):
